@@ -980,7 +980,7 @@ def translate_all(repo):
     np2lean.translate_all(repo, files, probs)
     # the context the bodies are read in (decorators, imports, module-level bindings, class headers, re-exports) must be the pinned one
     import pins
-    for fn, pr in pins.check(repo).items():
+    for fn, pr in pins.check(repo, files).items():
         if fn == '*':
             for k in probs:
                 probs[k] = probs[k] + pr
